@@ -19,12 +19,13 @@ structure GoodLine (limit : Nat) (x : List Char) : Prop where
   fits : x.length < limit
   /-- no `#` in columns 1-5 outside a comment line (the code raises `UnsupportedFeature`: vertical format) -/
   noVertical : (x.take Gen.blankSpaceContinue).contains '#' = true → Spec.isCommentLine x = true
-  /-- no `&` directly in front of a `$` comment (MCNP: continuation; the code: none) -/
-  noAmpDollar : NoAmpBeforeDollar x
+  /-- in a data line: no `&` directly in front of a `$` comment (MCNP: continuation; the code: none) -/
+  noAmpDollar : Spec.isCommentLine x = false → NoAmpBeforeDollar x
   /-- a line that is neither blank nor a comment line carries a word (no line holding only `$ …` or only `&`) -/
   hasWords : Spec.isBlankLine x = false → Spec.isCommentLine x = false → Spec.lineWords x ≠ []
-  /-- a `$` stands at the line start or behind a blank -/
-  dollarSpaced : ∀ pre post, x = pre ++ '$' :: post → pre = [] ∨ pre.getLast? = some ' '
+  /-- in a data line the first `$` stands at the line start or behind a blank -/
+  dollarSpaced : Spec.isCommentLine x = false → ∀ pre post, x = pre ++ '$' :: post → pre.contains '$' = false →
+    pre = [] ∨ pre.getLast? = some ' '
 
 /-! ## what the Spec sees in the model's events -/
 
@@ -128,8 +129,11 @@ theorem stepLine_good (cfg : Cfg) (st : LState) (x t : List Char) (g : GoodLine 
           · rfl
           · simp [g.noVertical hh]
         simp only [hno, Bool.false_eq_true, ↓reduceIte, take_limit x t ht cfg.lineLength g.fits,
-          continues_agree x t g.onlyBlanks ht g.noAmpDollar, rstrip_agree x t g.onlyBlanks ht]
-        simp
+          rstrip_agree x t g.onlyBlanks ht]
+        cases hcm : Spec.isCommentLine x
+        · simp only [Bool.false_eq_true, ↓reduceIte, continues_agree x t g.onlyBlanks ht (g.noAmpDollar hcm)]
+          simp
+        · simp
     cases hnew : (Spec.startsInput x && !st.continueInput && !Spec.isCommentLine x && st.hasNonComments && !st.raw.isEmpty)
     · simp only [Bool.false_eq_true, ↓reduceIte, hsd]
     · simp only [↓reduceIte, hsd]
@@ -165,12 +169,13 @@ theorem Stored.words_ne {limit : Nat} {r : Str} (h : Stored limit r) (hc : Spec.
   rw [isCommentLine_rstripB] at hc
   exact g.hasWords hb hc
 
-theorem Stored.dollarSpaced {limit : Nat} {r : Str} (h : Stored limit r) :
-    ∀ pre post, r = pre ++ '$' :: post → pre = [] ∨ pre.getLast? = some ' ' := by
+theorem Stored.dollarSpaced {limit : Nat} {r : Str} (h : Stored limit r) (hc : Spec.isCommentLine r = false) :
+    ∀ pre post, r = pre ++ '$' :: post → pre.contains '$' = false → pre = [] ∨ pre.getLast? = some ' ' := by
   obtain ⟨x, g, _, rfl⟩ := h
-  intro pre post e
+  intro pre post e hpre
   obtain ⟨k, hk⟩ := rstripB_decomp x
-  apply g.dollarSpaced pre (post ++ List.replicate k ' ')
+  rw [isCommentLine_rstripB] at hc
+  apply g.dollarSpaced hc pre (post ++ List.replicate k ' ') _ hpre
   rw [hk, e]; simp
 
 theorem beforeDollar_eq (r : Str) : Reader.beforeDollar r = Spec.dataPart r := by
@@ -309,7 +314,13 @@ theorem Stored.head_word {limit : Nat} {r : Str} (h : Stored limit r) (hc : Spec
     subst ha
     have hr : r = Spec.dataPart r ++ '$' :: post := by
       unfold Spec.dataPart; rw [hrest] at hsplit; exact hsplit.symm
-    rcases h.dollarSpaced _ _ hr with hnil | hlast
+    have hnod : (Spec.dataPart r).contains '$' = false := by
+      unfold Spec.dataPart
+      rw [List.contains_eq_mem, decide_eq_false_iff_not]
+      intro hm
+      have := mem_takeWhile _ _ _ hm
+      simp at this
+    rcases h.dollarSpaced hc _ _ hr hnod with hnil | hlast
     · exfalso; apply hdne; rw [hnil]; rfl
     · conv => lhs; rw [hr]
       unfold Spec.splitWords at hdne ⊢
